@@ -54,51 +54,53 @@ type Frame struct {
 }
 
 type Exec struct {
-	eng         *Engine
-	decls       *Decls
-	fn          *ssa.Function
-	con         *Contract
-	key         string
-	obs         []*Oblig
-	paths       int
-	bound       int // -1: proof mode; >=0: bounded refutation mode
-	fresh       int
-	epochs      int
-	tags        map[string]int
-	strs        map[string]int
-	keyTypes    map[string]types.Type
-	arrStorage  map[string]bool
-	labels      map[ssa.Instruction]string
-	loops       map[*ssa.Function]*LoopInfo
-	notes       map[string]bool
-	proveCache  map[string]bool
-	sideStats   struct{ asked, proved int }
-	readLog     *[]readRec
-	errGlobals  map[string]bool
-	noWrapRec   map[string]bool // name -> proved on all paths
-	curFrame    *Frame
-	funcCells   map[string]Val
-	iterMap     map[ssa.Value]Val
-	alloc0      string
-	canaryDone  bool
-	escCache    map[*ssa.Alloc]bool
-	arrOrigin   map[string]originInfo // backing arrays created by slicing an array value
-	alias       map[string][]string   // backing-array term -> arrays it may denote (append results)
-	unfoldDepth map[string]int
-	curKeys     []KeyT
-	matContext  string
-	probeVar    string
-	idxLog      *[]IdxT           // collector of (index, sequence) pairs read while evaluating a quantifier body
-	probe       *[]SeqRef         // collector of sequences indexed by a probe variable (see seqsOf)
-	noWD        bool              // suppress well-definedness obligations (while assuming the function's own requires)
-	inQBody     int                 // >0 while a quantifier body is being evaluated (frozen state)
-	lastPre     []string            // rendered preconditions of the pure application being processed
-	lastPreQ    bool
-	sideFacts   map[string][]string // trigger symbol -> contract instances (requires ==> ensures) of pure applications made inside quantifier bodies
-	view        string            // proof view being verified (see Clause.Group)
-	curGuard    string            // guard of the spec sub-expression being evaluated (see SpecEnv.g)
-	withQ       bool              // include raw quantified assumptions in queries (second attempt)
-	modelTerms  map[string]string // names (parameters, lets) -> scalar terms whose values are asked from a model
+	eng           *Engine
+	decls         *Decls
+	fn            *ssa.Function
+	con           *Contract
+	key           string
+	obs           []*Oblig
+	paths         int
+	bound         int // -1: proof mode; >=0: bounded refutation mode
+	fresh         int
+	epochs        int
+	tags          map[string]int
+	strs          map[string]int
+	keyTypes      map[string]types.Type
+	arrStorage    map[string]bool
+	labels        map[ssa.Instruction]string
+	loops         map[*ssa.Function]*LoopInfo
+	notes         map[string]bool
+	proveCache    map[string]bool
+	sideStats     struct{ asked, proved int }
+	readLog       *[]readRec
+	errGlobals    map[string]bool
+	noWrapRec     map[string]bool // name -> proved on all paths
+	curFrame      *Frame
+	funcCells     map[string]Val
+	iterMap       map[ssa.Value]Val
+	alloc0        string
+	canaryDone    bool
+	escCache      map[*ssa.Alloc]bool
+	callOnlyCache map[*ssa.Alloc]bool
+	semKeep       bool                  // havocAll runs for a call: cells of fresh objects that never escaped survive it
+	arrOrigin     map[string]originInfo // backing arrays created by slicing an array value
+	alias         map[string][]string   // backing-array term -> arrays it may denote (append results)
+	unfoldDepth   map[string]int
+	curKeys       []KeyT
+	matContext    string
+	probeVar      string
+	idxLog        *[]IdxT   // collector of (index, sequence) pairs read while evaluating a quantifier body
+	probe         *[]SeqRef // collector of sequences indexed by a probe variable (see seqsOf)
+	noWD          bool      // suppress well-definedness obligations (while assuming the function's own requires)
+	inQBody       int       // >0 while a quantifier body is being evaluated (frozen state)
+	lastPre       []string  // rendered preconditions of the pure application being processed
+	lastPreQ      bool
+	sideFacts     map[string][]string // trigger symbol -> contract instances (requires ==> ensures) of pure applications made inside quantifier bodies
+	view          string              // proof view being verified (see Clause.Group)
+	curGuard      string              // guard of the spec sub-expression being evaluated (see SpecEnv.g)
+	withQ         bool                // include raw quantified assumptions in queries (second attempt)
+	modelTerms    map[string]string   // names (parameters, lets) -> scalar terms whose values are asked from a model
 }
 
 func (x *Exec) recordModelTerm(name string, v Val) {
